@@ -397,7 +397,7 @@ def run_one(spec: dict) -> dict:
         _tracer.uninstall()
         _tracer = None
     if want:
-        _tracer = LineTracer(sched, want)
+        _tracer = LineTracer(sched, want, granularity=spec.get("gran", "line"))
         _tracer.install()
     try:
         sched.run()
@@ -510,7 +510,11 @@ def gen(seed, tier="quick") -> dict:
                     base["faults"] = []
                 runs.append(base)
                 continue
-            run = gen_run(g, f"r{rid}", prov, allow_faults=faulty)
+            # name collisions between runs: caches keyed by printed names / statement text only show when two
+            # different scripts of one process talk about the same names
+            tag = f"r{rid}" if (rid == 1 or g.random() < 0.6) else f"r{g.randrange(1, rid)}"
+            run = gen_run(g, tag, prov, allow_faults=faulty)
+            run["tag"] = f"{tag}#{rid}" if tag != f"r{rid}" else tag
             if not any(f["kind"] == "stmt_fail" for f in run["faults"]):
                 shared_texts.append({k: v for k, v in run.items()})
             runs.append(run)
@@ -522,8 +526,9 @@ def gen(seed, tier="quick") -> dict:
         "seed": seed,
         "providers": providers,
         "threads": threads,
-        "sched": g.choice(["random", "sticky", "sticky50", "pct1", "pct2", "pct3"]),
+        "sched": g.choice(["random", "sticky", "sticky50", "pct1", "pct2", "pct3", "retbias"]),
         "line": g.choice(line_choices),
+        "gran": g.choice(["line", "line", "line", "instr"]),
         "horizon": 600,
     }
 
